@@ -590,7 +590,13 @@ namespace occa {
       int pos = declarationNextCheck(operatorType::comma |
                                      operatorType::semicolon);
       if (pos == 1) {
-        tokenContext[1]->printError("Expected an expression");
+        // The '=' can be the last token of the range (e.g. while (int x =))
+        token_t *errorToken = tokenContext[1];
+        if (errorToken) {
+          errorToken->printError("Expected an expression");
+        } else {
+          tokenContext.printErrorAtEnd("Expected an expression");
+        }
         success = false;
       }
       if (!success) {
